@@ -276,7 +276,24 @@ func execSub(syncT, opsS string) (res h.Result) {
 	if dirty {
 		panic("bad case line: the script does not end with a message of the sync type")
 	}
-	// what messageDispatch has handed out may still be on its way through SubscribeMsg's merge goroutines
+	// what messageDispatch has handed out may still be on its way through SubscribeMsg's merge goroutines:
+	// wait (bounded) for the messages that have a subscriber — this only decides how long to look, the
+	// judgement below is made on what came out — and then until nothing more arrives for a while
+	for t0 := time.Now(); time.Since(t0) < 5*time.Second; {
+		missing := false
+		for id, sm := range sent {
+			if sm.want >= 0 && !sm.loose && !seen(id) {
+				missing = true
+			}
+		}
+		if !missing {
+			break
+		}
+		select {
+		case <-tick:
+		case <-time.After(10 * time.Millisecond):
+		}
+	}
 	for quiet := 0; quiet < 3; {
 		select {
 		case <-tick:
